@@ -221,7 +221,7 @@ PROPS["C09"] = dict(
 )
 
 COST_PROOFS = ["Base/Cost.v", "Mem/CostMem.v", "Sub/CostBlocks.v", "Sub/CostTwoWay.v", "Sub/CostTwoWayAll.v", "Sub/CostTwoWaySmall.v",
-               "Sub/CostPrefilter.v", "Sub/CostSearcher.v"]
+               "Sub/CostPrefilter.v", "Sub/CostSearcher.v", "Sub/FindIterProofs.v", "Sub/CostHit.v", "Sub/CostIter.v"]
 PROPS["C13"] = dict(
     id="C13", coq_files=MEM_PROOF_FILES + ["Mem/IterProofs.v"] + ALL_SUB_PROOFS + COST_PROOFS + ["Props/C13.v"],
     gen=gens.gen_c13, oracle=gens.oracle_c13, nontrivial=gens.nontrivial_c13, shrink_fields=[],
@@ -235,7 +235,7 @@ PROPS["C13"] = dict(
          "bytes are run on the implementation; non-trivial = haystack >= 256 bytes",
     assumptions=SUB_ASSUME + TIER1 + [
         "an elementary step is one recorded event: a raw load (vector chunk, word, byte, memcmp piece) or a loop tick; arithmetic between them is O(1) per event by inspection of the hooks' placement",
-        "complete iterator traversals are bounded by the oracle (sum over calls), not yet by a theorem"],
+        "FindIter / FindRevIter are not fused: a call made after a None repeats the search; 'complete traversal' means next until the first None"],
     trusted=SUB_TRUSTED,
 )
 
